@@ -10,6 +10,8 @@ import (
 	"os"
 	"sync"
 
+	"verif/harness/addrfam"
+	"verif/harness/linefam"
 	"verif/harness/mimefam"
 	"verif/harness/pipeconn"
 	"verif/harness/rec"
@@ -134,6 +136,28 @@ func runOne(family string, j job, seed int64) result {
 		evs := rn.Rec.Events()
 		session.PostProcessLogs(evs)
 		return result{idx: j.idx, lines: rec.Marshal(evs), infra: rn.Infra}
+	case "addr":
+		var s addrfam.Scenario
+		if err := json.Unmarshal(j.line, &s); err != nil {
+			return result{idx: j.idx, infra: err}
+		}
+		if s.ID == "" {
+			s.ID = fmt.Sprintf("A%06d", j.idx)
+		}
+		rn := &addrfam.Runner{Sc: s, Rec: rec.New(), T: j.idx}
+		rn.Run()
+		return result{idx: j.idx, lines: rn.Rec.Lines(), infra: rn.Infra}
+	case "line":
+		var s linefam.Scenario
+		if err := json.Unmarshal(j.line, &s); err != nil {
+			return result{idx: j.idx, infra: err}
+		}
+		if s.ID == "" {
+			s.ID = fmt.Sprintf("L%06d", j.idx)
+		}
+		rn := &linefam.Runner{Sc: s, Rec: rec.New(), T: j.idx}
+		rn.Run()
+		return result{idx: j.idx, lines: rn.Rec.Lines(), infra: rn.Infra}
 	case "mime":
 		var s mimefam.Scenario
 		if err := json.Unmarshal(j.line, &s); err != nil {
